@@ -520,6 +520,7 @@ class _Seams:
         self.saved = {}
         self.plan = None
         self.module_pools = []
+        self.deep_saved = []
 
     def table(self):
         tm = TimeModule()
@@ -565,7 +566,48 @@ class _Seams:
             if new is not None:
                 self.saved[n] = v
                 setattr(m, n, new)
+            elif getattr(type(v), '__module__', None) == m.__name__ or (isinstance(v, type) and v.__module__ == m.__name__):
+                # a module-level singleton of one of the module's own classes (a registry object, a manager ...), or such
+                # a class itself: real locks / executors created at import time and kept in its attributes are replaced too
+                self._deep(v, lock_type, rlock_type, 0, set())
         return self
+
+    def _deep(self, obj, lock_type, rlock_type, depth, seen):
+        if id(obj) in seen or depth > 3:
+            return
+        seen.add(id(obj))
+        try:
+            attrs = dict(vars(obj))
+        except TypeError:
+            attrs = {}
+        for sl in getattr(type(obj), '__slots__', ()) if not isinstance(obj, type) else ():
+            if isinstance(sl, str) and hasattr(obj, sl):
+                attrs[sl] = getattr(obj, sl)
+        for n, v in attrs.items():
+            if n.startswith('__'):
+                continue
+            new = None
+            if isinstance(v, lock_type):
+                new = SimLock()
+            elif isinstance(v, rlock_type):
+                new = SimRLock()
+            elif isinstance(v, _cf.ThreadPoolExecutor):
+                new = SimPool(getattr(v, '_max_workers', 32))
+                self.module_pools.append(new)
+            elif isinstance(v, _threading.Event):
+                new = SimEvent()
+            elif isinstance(v, _threading.Condition):
+                new = SimCondition()
+            elif type(v) in (dict, set) and n.startswith('_') and not isinstance(obj, type):
+                new = type(v)()
+            if new is not None:
+                try:
+                    setattr(obj, n, new)
+                except (AttributeError, TypeError):
+                    continue
+                self.deep_saved.append((obj, n, v))
+            elif getattr(type(v), '__module__', None) == self.mod.__name__ and not isinstance(v, type):
+                self._deep(v, lock_type, rlock_type, depth + 1, seen)
 
     def shutdown_pools(self):
         """Module-level executors live for the whole process in real life; end their sim workers with the run."""
@@ -576,6 +618,12 @@ class _Seams:
         for n, v in self.saved.items():
             setattr(self.mod, n, v)
         self.saved = {}
+        for obj, n, v in reversed(self.deep_saved):
+            try:
+                setattr(obj, n, v)
+            except (AttributeError, TypeError):
+                pass
+        self.deep_saved = []
         SimPool.registry = []
 
 
